@@ -8,9 +8,9 @@ set -u
 mdir="$(realpath "$1")"; id="$2"; tier="${3:-quick}"
 wt=${SEED_WT:-/tmp/wt-seed}
 [ -d "$wt" ] || git -C /repo worktree add --detach "$wt" HEAD >/dev/null 2>&1
-git -C "$wt" reset -q --hard HEAD; git -C "$wt" clean -qfd -e .vh -e target >/dev/null
+git -C "$wt" reset -q --hard HEAD; git -C "$wt" clean -qfd -e .vh -e target >/dev/null; rm -rf "$wt/MUTANT"
 export CARGO_NET_OFFLINE=true RUST_BACKTRACE=0
-fails() { (cd "$wt" && cargo test --workspace --no-fail-fast --offline 2>&1 | grep -E '^test .* (FAILED|failed)$|^test .*FAILED' | sed 's/ \.\.\. FAILED//' | sort -u); }
+fails() { (cd "$wt" && cargo test --workspace --no-fail-fast --offline 2>&1 | grep -E '^test .* \.\.\. FAILED' | grep -v '^test result' | sed 's/ \.\.\. FAILED.*//' | sort -u); }
 if [ ! -f /tmp/baseline-fails.txt ]; then fails > /tmp/baseline-fails.txt; fi
 # 1. apply
 if ! git -C "$wt" apply "$mdir/patch.diff" 2>/tmp/apply.err; then echo "PATCH DOES NOT APPLY"; cat /tmp/apply.err; exit 3; fi
@@ -19,10 +19,11 @@ if ! (cd "$wt" && cargo build --workspace --offline >/tmp/seed-build.log 2>&1); 
 fails > /tmp/mutant-fails.txt
 tests_ok=true; diff /tmp/baseline-fails.txt /tmp/mutant-fails.txt >/tmp/fails.diff || tests_ok=false
 # 3. demo with the patch (must fail)
-rm -rf "$wt/MUTANT_DEMO"; mkdir -p "$wt/MUTANT_DEMO"; cp -r "$mdir/demo" "$wt/MUTANT_DEMO/demo"
+x="$(basename "$mdir")"
+rm -rf "$wt/MUTANT"; mkdir -p "$wt/MUTANT"; cp -r "$mdir" "$wt/MUTANT/$x"
 demo_with=skipped; demo_without=skipped
 if [ -f "$mdir/demo/run.sh" ]; then
-	(cd "$wt" && DEMO_DIR="$wt/MUTANT_DEMO/demo" bash "$wt/MUTANT_DEMO/demo/run.sh" >/tmp/demo-with.log 2>&1); demo_with=$?
+	(cd "$wt" && sh "$wt/MUTANT/$x/demo/run.sh" >/tmp/demo-with.log 2>&1); demo_with=$?
 fi
 # 4. the check against the mutant
 "$(dirname "$0")/mutant-run.sh" "$wt" "$id" "$tier" >/tmp/check-mutant.log 2>&1; check_rc=$?
@@ -30,9 +31,9 @@ viol="$(grep -E '^VIOLATION|violation in phase|signature:' /tmp/check-mutant.log
 # 5. demo without the patch (must pass)
 git -C "$wt" apply -R "$mdir/patch.diff"
 if [ -f "$mdir/demo/run.sh" ]; then
-	(cd "$wt" && DEMO_DIR="$wt/MUTANT_DEMO/demo" bash "$wt/MUTANT_DEMO/demo/run.sh" >/tmp/demo-without.log 2>&1); demo_without=$?
+	(cd "$wt" && sh "$wt/MUTANT/$x/demo/run.sh" >/tmp/demo-without.log 2>&1); demo_without=$?
 fi
-rm -rf "$wt/MUTANT_DEMO"; git -C "$wt" reset -q --hard HEAD; git -C "$wt" clean -qfd -e .vh -e target >/dev/null
+rm -rf "$wt/MUTANT"; git -C "$wt" reset -q --hard HEAD; git -C "$wt" clean -qfd -e .vh -e target >/dev/null
 python3 - "$mdir" "$id" "$tier" "$tests_ok" "$demo_with" "$demo_without" "$check_rc" <<'PY'
 import json,sys
 mdir,id,tier,tests_ok,dw,dwo,rc=sys.argv[1:]
